@@ -20,9 +20,10 @@ class FluidStub:
     pseudopressure; m_scaled_func maps a frac-face pressure <= p_i into [0, m_i] (one fresh value per
     distinct argument, equal arguments give equal values; values may be negative unless `nonneg`)."""
 
-    def __init__(self, name="", density_rows=0, nonneg=False):
+    def __init__(self, name="", density_rows=0, nonneg=False, unbounded=False):
         self.name = name
         self.nonneg = nonneg
+        self.unbounded = unbounded      # frac-face pressures above the initial pressure (build-up / injection) are admitted
         self.m_i = fresh(f"m_i{name}", pos=True)
         self._mf = {}
         self.pvt_props = {}
@@ -55,7 +56,8 @@ class FluidStub:
             # reference pressure of a rescaled table (rescale_pseudopressure maps a chosen pressure to 0)
             if self.nonneg:
                 c.assume((lift(v) >= 0).node)
-            c.assume((lift(v) <= self.m_i).node)
+            if not self.unbounded:
+                c.assume((lift(v) <= self.m_i).node)
         return v
 
 
